@@ -305,6 +305,76 @@ theorem C05_glyph (f : Font) (M : Matrix) (gs : GS) (x y : Rat) (c : Nat) :
       = observe (mult_matrix (translate_matrix M (x, y)) gs.ctm) f gs c :=
   ltchar_eq_observe f M gs.ctm gs x y c rfl
 
+/-- **The glyph box for every matrix** — negative scales (mirrored text), rotations, skews,
+singular matrices: `LTChar.bbox` is the bounding box of the four corners of the text-space glyph box
+(`ltcharBox`: regenerated formulas of `LTChar.__init__`) under `render_char`'s matrix: it is
+`apply_matrix_rect` (the swaps after it never fire), it contains all four transformed corners,
+each of its sides passes through one of them, `size` is its height (vertical writing: its width)
+and is never negative. -/
+theorem C05_glyph_bbox (matrix : Matrix) (f : Font) (fs sc rise : Rat) (c : Nat) (col : Option Color) :
+    let g := ltchar matrix f fs sc rise c col
+    let box := ltcharBox f fs sc rise c
+    g.bbox = apply_matrix_rect matrix box ∧
+    (∀ p ∈ corners matrix box, g.bbox.1 ≤ p.1 ∧ p.1 ≤ g.bbox.2.2.1 ∧ g.bbox.2.1 ≤ p.2 ∧ p.2 ≤ g.bbox.2.2.2) ∧
+    ((∃ p ∈ corners matrix box, p.1 = g.bbox.1) ∧ (∃ p ∈ corners matrix box, p.2 = g.bbox.2.1) ∧
+     (∃ p ∈ corners matrix box, p.1 = g.bbox.2.2.1) ∧ (∃ p ∈ corners matrix box, p.2 = g.bbox.2.2.2)) ∧
+    g.size = (if f.vertical then g.bbox.2.2.1 - g.bbox.1 else g.bbox.2.2.2 - g.bbox.2.1) ∧ 0 ≤ g.size := by
+  intro g box
+  obtain ⟨hb, hs⟩ := ltchar_bbox_eq matrix f fs sc rise c col
+  have ho := rect_ordered matrix box
+  refine ⟨hb, ?_, ?_, ?_, ?_⟩
+  · rw [show g.bbox = _ from hb]; exact rect_contains matrix box
+  · rw [show g.bbox = _ from hb]; exact rect_tight matrix box
+  · rw [show g.bbox = _ from hb]; exact hs
+  · rw [show g.size = _ from hs]
+    split
+    · have := ho.1; grind
+    · have := ho.2; grind
+
+/-- Closed form for axis-parallel matrices `[a 0 0 d e f]` with **any signs** of `a`, `d`: horizontal
+writing, box `(0, lo, adv, lo + Tfs)` ↦ x from `e` to `a·adv + e`, y from `d·lo + f` to
+`d·(lo + Tfs) + f`, each pair ordered by min/max; the reported size is `|d·Tfs|`. -/
+theorem C05_glyph_bbox_axis (a d e f' : Rat) (f : Font) (fs sc rise : Rat) (c : Nat) (col : Option Color)
+    (hv : f.vertical = false) :
+    let g := ltchar (a, 0, 0, d, e, f') f fs sc rise c col
+    let lo := ltchar_descent (font_get_descent f.descent (fontVScale f)) fs + rise
+    g.bbox = (min e (a * g.adv + e), min (d * lo + f') (d * (lo + fs) + f'),
+              max e (a * g.adv + e), max (d * lo + f') (d * (lo + fs) + f')) ∧
+    g.size = (if 0 ≤ d * fs then d * fs else -(d * fs)) := by
+  intro g lo
+  obtain ⟨hb, hs⟩ := ltchar_bbox_eq (a, 0, 0, d, e, f') f fs sc rise c col
+  have hadv : g.adv = ltchar_adv (charWidth f c) fs sc := by
+    rw [show g.adv = _ from ltchar_adv_eq _ f fs sc rise c col]; simp [hv]
+  have hbox : ltcharBox f fs sc rise c = (0, lo, g.adv, lo + fs) := by
+    simp only [ltcharBox, hv, Bool.false_eq_true, if_false, ltchar_bbox_h, hadv, lo]
+  rw [hbox, rect_axis] at hb hs
+  simp only [hv, Bool.false_eq_true, if_false] at hs
+  refine ⟨by rw [show g.bbox = _ from hb]; simp only [Prod.mk.injEq]; refine ⟨?_, ?_, ?_, ?_⟩ <;> grind, ?_⟩
+  rw [show g.size = _ from hs]
+  split <;> grind
+
+/-- Closed form for quarter turns `[0 b c 0 e f]` (text running up or down the page): the box's x
+range comes from the glyph's height and its y range from the advance — the reported `size` (box
+height) is then `|b·adv|`, the length of the advance, not the font size. -/
+theorem C05_glyph_bbox_quarter (b c' e f' : Rat) (f : Font) (fs sc rise : Rat) (c : Nat) (col : Option Color)
+    (hv : f.vertical = false) :
+    let g := ltchar (0, b, c', 0, e, f') f fs sc rise c col
+    let lo := ltchar_descent (font_get_descent f.descent (fontVScale f)) fs + rise
+    g.bbox = (min (c' * lo + e) (c' * (lo + fs) + e), min f' (b * g.adv + f'),
+              max (c' * lo + e) (c' * (lo + fs) + e), max f' (b * g.adv + f')) ∧
+    g.size = (if 0 ≤ b * g.adv then b * g.adv else -(b * g.adv)) := by
+  intro g lo
+  obtain ⟨hb, hs⟩ := ltchar_bbox_eq (0, b, c', 0, e, f') f fs sc rise c col
+  have hadv : g.adv = ltchar_adv (charWidth f c) fs sc := by
+    rw [show g.adv = _ from ltchar_adv_eq _ f fs sc rise c col]; simp [hv]
+  have hbox : ltcharBox f fs sc rise c = (0, lo, g.adv, lo + fs) := by
+    simp only [ltcharBox, hv, Bool.false_eq_true, if_false, ltchar_bbox_h, hadv, lo]
+  rw [hbox, rect_quarter] at hb hs
+  simp only [hv, Bool.false_eq_true, if_false] at hs
+  refine ⟨by rw [show g.bbox = _ from hb]; simp only [Prod.mk.injEq]; refine ⟨?_, ?_, ?_, ?_⟩ <;> grind, ?_⟩
+  rw [show g.size = _ from hs]
+  split <;> grind
+
 /-! ## The nesting budget is only a bound -/
 
 /-- Raising the budget never changes a result already obtained (text model). -/
@@ -489,6 +559,18 @@ example : (execTok exEnv (fun _ _ => ([], true)) { MState.init MATRIX_IDENTITY e
       (.op (.other "re"))).1.argstack = [] ∧
     (execTok exEnv (fun _ _ => ([], true)) { MState.init MATRIX_IDENTITY exRes with argstack := [.num 7] }
       (.op (.other "xyz"))).1.argstack = [.num 7] := by decide +kernel
+
+/-- `C05_glyph_bbox*` on concrete glyphs of `exFont` (width 500 for code 33, descent −200) at size 10:
+mirrored `[-2 0 0 3 100 50]` — the box runs from x = 90 to 100; upside down `[1 0 0 -1 0 0]`; a
+quarter turn `[0 1 -1 0 40 60]` — size 5 = the advance; a 45°-like rotation-with-scale `[1 1 -1 1 0 0]`. -/
+example : (ltchar (-2, 0, 0, 3, 100, 50) exFont 10 1 0 33 none).bbox = (90, 44, 100, 74) ∧
+    (ltchar (-2, 0, 0, 3, 100, 50) exFont 10 1 0 33 none).size = 30 ∧
+    (ltchar (1, 0, 0, -1, 0, 0) exFont 10 1 2 33 none).bbox = (0, -10, 5, 0) ∧
+    (ltchar (0, 1, -1, 0, 40, 60) exFont 10 1 0 33 none).bbox = (32, 60, 42, 65) ∧
+    (ltchar (0, 1, -1, 0, 40, 60) exFont 10 1 0 33 none).size = 5 ∧
+    (ltchar (1, 1, -1, 1, 0, 0) exFont 10 1 0 33 none).bbox = (-8, -2, 7, 13) ∧
+    ltcharBox exFont 10 1 0 33 = (0, -2, 5, 8) ∧
+    corners (1, 1, -1, 1, 0, 0) (0, -2, 5, 8) = [(2, -2), (7, 3), (-3, 13), (-8, 8)] := by decide +kernel
 
 /-- The initial states are related (hypothesis `hR` of `C05_step` is satisfiable). -/
 example : R exEnv (MState.init MATRIX_IDENTITY exRes) ⟨GS.init MATRIX_IDENTITY, [], none, exRes⟩ :=
